@@ -45,7 +45,7 @@ def _evaluate_multinet(multinet, levelorder, ctrl_variables, **kwargs):
     rel_nets = _relevant_nets(multinet, levelorder)
     for net_name in multinet['nets'].keys():
         net = multinet['nets'][net_name]
-        rel_levelorder = levelorder[rel_nets[net_name]]
+        rel_levelorder = levelorder if rel_nets[net_name] else levelorder[:0]
         ctrl_variables['nets'][net_name] = _evaluate_net(
             net, rel_levelorder, ctrl_variables['nets'][net_name], **kwargs) if np.any(
             rel_nets[net_name]) else ctrl_variables['nets'][net_name]
